@@ -387,8 +387,8 @@ def i_configs(tier):
     if tier == "quick":
         return [dict(cf("block", "1.1", True, 2, "A"), frames=2), cf("block", "1.1", 3, -1, "D", "fixed-terminal"),
                 cf("kitty", "1.1+L", True, 2, "D", "fixed-terminal"), cf("iterm2", "1.1+W", 4, -1, "A", "fixed-terminal")]
-    out = [cf("block", "1.1", True, 2, "A", "full"), cf("block", "1.1", True, -1, "D", "full"),
-           cf("kitty", "1.1+L", True, 2, "D", "full"), cf("iterm2", "1.1+W", True, 2, "A", "full")]
+    # the full alphabet (3 sizes, every seek) costs ~130k transitions of ~2 ms: block style only
+    out = [cf("block", "1.1", True, 2, "A", "full"), cf("block", "1.1", True, -1, "D", "full")]
     for style, specs in (("block", ["1.1"]), ("kitty", ["1.1+L", "1.1+W"]), ("iterm2", ["1.1+L", "1.1+W"])):
         for spec in specs:
             for cached, repeat, size0 in ((True, 2, "A"), (True, -1, "D"), (3, 3, "A"), (4, 2, "D"), (2, 2, "A"),
